@@ -31,6 +31,14 @@ func genZPath(t *rapid.T, root interface{}, maxLen int, invalidOdds int) []zStep
 	n := rapid.IntRange(1, maxLen).Draw(t, "pathlen")
 	for i := 0; i < n; i++ {
 		cur, st, _ := zResolve(root, steps)
+		if st == zNil && rapid.IntRange(0, 2).Draw(t, "stepAfterAbsentKey") == 0 {
+			// an absent key yields nil; whatever is applied to that nil next is a nil dereference, in every spelling
+			if k := &steps[len(steps)-1]; k.Kind == "field" && k.Name != "" {
+				k.Spell = []string{"dot", "bracket"}[rapid.IntRange(0, 1).Draw(t, "absentSpelling")]
+			}
+			steps = append(steps, zStep{Kind: "field", Name: "Anything", Spell: []string{"dot", "bracket"}[rapid.IntRange(0, 1).Draw(t, "afterAbsentSpelling")]})
+			break
+		}
 		if st != zOK {
 			break
 		}
